@@ -83,8 +83,16 @@ def base_cases(r, tier):
     spec8 = [{"p": "src", "k": "d"}] + [F("src/" + n, r.choice([0, 100, 5000, 70000]), 50 + i, mode=0o644) for i, n in enumerate(names)]
     pre8 = [{"p": "dst", "k": "d"}, {"p": "dst/src", "k": "d"}] + [F("dst/src/" + n, r.choice([1, 300, 9000]), 80 + i, mode=0o600) for i, n in enumerate(names)]
     pre8 += [F("dst/src/log.~1~", 7, 120), F("dst/src/f1.~2~", 8, 121), F("dst/src/README.~1~", 9, 122)]
-    out.append({"name": "backup-prefix-names", "spec": spec8, "pre": pre8, "bs": "4096", "expect_fail": False, "opts": ["--backup", "numbered"]})
-    out.append({"name": "backup-prefix-names-auto", "spec": copy.deepcopy(spec8), "pre": copy.deepcopy(pre8), "bs": "4096", "expect_fail": False, "opts": ["--backup", "auto"]})
+    # (many runs outside the supervisor: the overlaps that matter here -- a neighbour renamed between the listing of the directory and a
+    # look at the entry -- are narrower than a system call)
+    out.append({"name": "backup-prefix-names", "spec": spec8, "pre": pre8, "bs": "4096", "expect_fail": False, "opts": ["--backup", "numbered"], "plain": 80 if tier == "quick" else 300})
+    # ... and with the overlap arranged: whatever a worker wants to know about `log.1` (of which it is not the copier: it is working
+    # on `log` and has the directory listed) it learns only after the sibling's copier has renamed `log.1` away
+    out.append({"name": "backup-prefix-names-gated", "spec": copy.deepcopy(spec8), "pre": copy.deepcopy(pre8), "bs": "4096", "expect_fail": False, "opts": ["--backup", "numbered"], "per": 16 if tier == "quick" else 60,
+                "scheds": [({"sched": "free"}, 2), ({"sched": "free"}, 4), ({"sched": "jitter", "jitter": [100, 400]}, 4), ({"sched": "free"}, 8)],
+                "rules": [{"id": "n1", "sys": "rename", "suffix": "/dst/src/log.1", "action": "note", "when": "exit"},
+                          {"id": "g1", "sys": "statx", "suffix": "/dst/src/log.1", "role": "worker", "action": "hold", "until": "n1", "maxwait_ms": 150}]})
+    out.append({"name": "backup-prefix-names-auto", "spec": copy.deepcopy(spec8), "pre": copy.deepcopy(pre8), "bs": "4096", "expect_fail": False, "opts": ["--backup", "auto"], "plain": 40 if tier == "quick" else 150})
     # T11: a second copy over a destination that already holds the tree's symbolic links (several in one directory, stale targets):
     # refused or replaced, but the same way under every schedule, worker count and driver
     spec11 = [{"p": "src", "k": "d"}, F("src/a", 100, 301), F("src/b", 5000, 302)] + [{"p": "src/l%d" % k, "k": "l", "target": r.choice(["a", "b", "nowhere"])} for k in range(6)]
@@ -192,7 +200,7 @@ def gen_cases(tier, seed):
             # ... and a few runs outside the supervisor: tracing serialises the threads at every system call, real parallelism finds
             # other overlaps (no event monitors there, only exit status and final state)
             if not bc.get("rules") and not bc.get("nofile"):
-                for k in range((10 if tier == "quick" else 60) if driver == "parfile" else (6 if tier == "quick" else 40)):
+                for k in range(bc.get("plain", (10 if tier == "quick" else 60) if driver == "parfile" else (6 if tier == "quick" else 40))):
                     w = [8, 4, 16, 2, 32][k % 5]
                     yield {"group": gid, "name": bc["name"], "spec": bc["spec"], "pre": bc["pre"], "driver": driver, "workers": w, "plain": True,
                            "args": ["--driver", driver, "-w", str(w), "--block-size", bc["bs"]] + bc.get("opts", []) + bc.get("tail", ["-r", "src", "dst"]), "plan": {"sched": "unsupervised"},
